@@ -6,11 +6,24 @@ SEQ_NOTE=("Trusted: the reference model (FIFO per topic, counters, flags), the s
  "8 KiB allocation cap) standing for the real constants, the executor that drives the public API inside worker processes "
  "(process-global block/file trackers are reset between executions by a cfg-guarded hook; Restart is a real fork only in isolated runs). "
  "Bounded: nothing is claimed beyond the depth, alphabet and configurations recorded in the evidence file.")
+def seq(design,technique,text,note=SEQ_NOTE):
+    return dict(engine="walmc-seq", category="model_checking", design=design, technique=technique, text=text, note=note)
+BFS="explicit-state BFS over API op sequences on the real engine, "
 CHECKS={
- "C01": dict(engine="walmc-seq", category="model_checking", design="C01",
-   technique="explicit-state BFS over API op sequences on the real engine, checked step-by-step against a FIFO reference model",
-   text="Exhaustive breadth-first exploration of all sequences (bounded depth, from several prepared roots) of appends, batch appends and consuming reads over a size/budget alphabet chosen around block and double-peek boundaries, executed on the real engine; every returned entry is compared with a FIFO model (order, exactly-once, byte identity, empty only when drained). This is the right level because the property is a universally quantified statement about op sequences and the engine state is too irregular for tests to enumerate.",
-   note=SEQ_NOTE),
+ "C01": seq("C01", BFS+"checked step-by-step against a FIFO reference model",
+   "Exhaustive breadth-first exploration of all sequences (bounded depth, from several prepared roots) of appends, batch appends and consuming reads over a size/budget alphabet chosen around block and double-peek boundaries, executed on the real engine; every returned entry is compared with a FIFO model (order, exactly-once, byte identity, empty only when drained). This is the right level because the property is a universally quantified statement about op sequences and the engine state is too irregular for tests to enumerate."),
+ "C03": seq("C03", "exhaustive product of entry layouts x cursor positions x byte budgets on the real engine, cap/budget/progress predicates on every batch read",
+   "Product-mode exploration: every layout of up to 2 (quick) / 4 (thorough) entries from a 7-size menu (around the 128-byte double-peek threshold and block capacity) plus sealed+tail and 2000-entry layouts, every cursor position reachable by up to depth-1 reads, every budget of an 18-value menu (0, 1, thresholds +-1, block, usize::MAX), consuming and peeking; each result is checked for the 2000-entry cap, the byte budget (unless exactly one entry) and progress."),
+ "C04": seq("C04", BFS+"with every rejection cause inserted at every position, FIFO/count model that ignores failed appends",
+   "Part (a) of the design: all histories up to the bound over valid appends/reads plus every rejection cause (oversized entry, >2000 entries, empty batch, over-long topic on both paths, batch containing an oversized entry, first op on a topic failing), with reopen/restart; the model drops failed appends, so any trace of one (readable entry, changed count, duplicated or lost neighbour, before or after restart) is a discrepancy. Injected I/O failures and concurrent visibility are parts (b)/(c) (see DESIGN.md)."),
+ "C06": seq("C06", BFS+"with Reopen/Restart events (<=2 quick, <=3 thorough), same FIFO model with restarts invisible",
+   "All histories up to the bound of appends (including multi-unit entries), batch appends, consuming and peeking reads, rejected ops, and reopen (same process) / restart events; StrictlyAtOnce is compared exactly, AtLeastOnce for no-loss/no-reorder with bounded redelivery; counts are compared as well."),
+ "C15": seq("C15", BFS+"count oracle (appended minus consumed) evaluated after every op",
+   "All histories up to the bound over appends, batch appends, rejected ops, consuming reads, peeks, offset reads, reopen and restart on two topics; after every op the reported count of every topic must equal appended minus consumed of the reference model (after a restart only in StrictlyAtOnce mode)."),
+ "C16": seq("C16", BFS+"every history executed once per backend, API-level observation streams compared",
+   "Differential: every history of the C06/C15 alphabet (including rejected ops and restarts) is executed on the FD/io_uring backend and on the mmap backend; results, errors, returned entries and counts must be identical at every step. No reference model is involved."),
+ "C17": seq("C17", BFS+"marker persister thread gated so that 'reopen at any delay' is an explicit choice",
+   "All histories up to depth 5 (quick) / 7 (thorough) of append, mark_clean, mark_dirty, persister tick, reopen and restart on two topics; the marker persister thread is parked at a cfg-guarded gate and only runs when the history says so, which makes 'reopen immediately' and 'reopen after the persister ran' both reachable deterministically; topic_is_clean is compared with a flag model after every op."),
 }
 def cmd(i,t): return f"./check {i} --tier {t}"
 repo_commits=subprocess.run(["git","-C","/repo","log","--format=%h %s","ae09759..HEAD"],capture_output=True,text=True).stdout.strip().split("\n")
